@@ -66,6 +66,16 @@ class C14(Prop):
         # whatever the seed: (a) the response is itself a DICT keyed by the interrupt's own output name — a value like any other, whether
         # the caller supplies it on resume or a handler returns it; (b) an interrupt whose output NO node consumes (last position, or one
         # output of several), resumed under the strictest policy for caller-supplied internal values: a response is never refused
+        # (c) a plain (non-async) handler that answers through an AWAITABLE object (a future-like handle resolving to the response, or to
+        # None = "no answer yet"): the same as answering with what it resolves to
+        for resolved in (rng.randint(30, 60), None, "yes"):
+            def prog(v: Any) -> list[dict]:
+                return [{"name": "g0", "bound": [], "nodes": [
+                    {"name": "mk", "kind": "fn", "params": [["x", None]], "dataOuts": ["draft"], "body": {"b": "tag", "t": "mk"}},
+                    {"name": "ask", "kind": "interrupt", "params": [["draft", None]], "dataOuts": ["decision"], "body": {"b": "const", "v": v}},
+                    {"name": "use", "kind": "fn", "params": [["decision", None]], "dataOuts": ["u"], "body": {"b": "tag", "t": "use"}}]}]
+            yield {"kind": "twin", "program": prog({"box": resolved}), "twin": prog(resolved), "values": [["x", rng.randint(0, 3)]], "nested": False,
+                   "seed": rng.randint(0, 10**6), "responses": [1], "cfg": {}}
         for variant in ("owndict", "owndict", "strict-last", "strict-multi"):
             if variant == "owndict":
                 nodes = [{"name": "ask", "kind": "interrupt", "params": [["x", None]], "dataOuts": ["decision"], "body": {"b": "handler", "k": None}},
@@ -138,6 +148,9 @@ class C14(Prop):
         return {"rounds": rounds, "answers": answers, "final_values": values}
 
     def impl(self, case: dict) -> Any:
+        if case.get("kind") == "twin":
+            rounds = [impl.run_case(pr, None, case["values"], {}, "async", ctl=sched.Controller("random", case["seed"])) for pr in (case["program"], case["twin"])]
+            return {"rounds": rounds, "answers": {}, "final_values": case["values"], "auto": rounds[0], "twin": True}
         if case.get("kind") == "repeat":
             from .. import build
             from ..build import Env
@@ -166,6 +179,13 @@ class C14(Prop):
 
     def oracle(self, case: dict, obs: Any) -> str | None:
         rounds = obs["rounds"]
+        if case.get("kind") == "twin":
+            a, b = rounds
+            pa, pb = (a.get("pause") or {}), (b.get("pause") or {})
+            if (a["status"], a["values"], a["error"], pa.get("node")) != (b["status"], b["values"], b["error"], pb.get("node")):
+                return (f"a handler answering through an awaitable object ended {a['status']} {a['values']} (pause at {pa.get('node')}), the handler answering with what "
+                        f"it resolves to gives {b['status']} {b['values']} (pause at {pb.get('node')})")
+            return None
         if case.get("kind") == "repeat":
             first = (rounds[0]["status"], rounds[0]["values"], rounds[0]["error"])
             if rounds[0]["status"] != "completed":
@@ -245,7 +265,7 @@ class C14(Prop):
 
     # ---------------------------------------------------------------- model
     def model(self, case: dict, driver: Any) -> Any:
-        if case.get("kind") == "repeat" or case.get("pyOnly"):
+        if case.get("kind") in ("repeat", "twin") or case.get("pyOnly"):
             return None         # dict values are outside the model's value universe: the oracle judges
 
         def run(program: list[dict], values: list, i: int) -> dict:
@@ -261,7 +281,7 @@ class C14(Prop):
         return self._history(case, run)
 
     def compare(self, case: dict, i: Any, m: Any) -> str | None:
-        if case.get("kind") == "repeat" or case.get("pyOnly"):
+        if case.get("kind") in ("repeat", "twin") or case.get("pyOnly"):
             return None      # a handler returning a dict is outside the body language of the model: the oracle judges
         if len(i["rounds"]) != len(m["rounds"]):
             return f"history length: impl={len(i['rounds'])} model={len(m['rounds'])}"
@@ -279,7 +299,7 @@ class C14(Prop):
         return None
 
     def nontrivial(self, case: dict, obs: Any) -> bool:
-        return case.get("kind") == "repeat" or any(o["status"] == "paused" for o in obs["rounds"])
+        return case.get("kind") in ("repeat", "twin") or any(o["status"] == "paused" for o in obs["rounds"])
 
     def features(self, case: dict, obs: Any) -> dict:
         return {"nested": case["nested"], "rounds": len(obs["rounds"]), "pauses": sum(1 for o in obs["rounds"] if o["status"] == "paused"),
